@@ -440,5 +440,5 @@ var Ops = &api.Ops{
 		}
 		return s.Step, nil
 	},
-	Generator: Generator, Scale: Scale, IsInfinity: IsInfinity,
+	Generator: Generator, Scale: Scale, IsInfinity: IsInfinity, AddTorsion: AddTorsion,
 }
